@@ -7,11 +7,14 @@ import (
 	"bufio"
 	"fmt"
 	"io"
+	"os"
 	"os/exec"
 	"strconv"
 	"strings"
 	"time"
 )
+
+var debugSlow = os.Getenv("VERIF_DEBUG") != ""
 
 type Result int
 
@@ -47,6 +50,7 @@ type Solver struct {
 	sb     strings.Builder
 	dead   bool
 	lastErr string
+	logf   *os.File
 }
 
 func NewSolver(kind string, timeoutMs int) (*Solver, error) {
@@ -76,6 +80,10 @@ func NewSolver(kind string, timeoutMs int) (*Solver, error) {
 		return nil, err
 	}
 	s := &Solver{kind: kind, cmd: cmd, in: in, out: bufio.NewReaderSize(out, 1<<16), defLvl: map[uint32]int{}, defLog: [][]uint32{nil}, tmoMs: timeoutMs}
+	if d := os.Getenv("VERIF_SOLVER_LOG"); d != "" {
+		os.MkdirAll(d, 0o755)
+		s.logf, _ = os.Create(fmt.Sprintf("%s/solver-%s-%d.log", d, kind, cmd.Process.Pid))
+	}
 	if strings.HasPrefix(kind, "z3") {
 		s.send(fmt.Sprintf("(set-option :timeout %d)\n(set-option :produce-models true)\n", timeoutMs))
 	} else {
@@ -97,6 +105,9 @@ func (s *Solver) Close() {
 func (s *Solver) send(txt string) {
 	if s.dead {
 		return
+	}
+	if s.logf != nil {
+		fmt.Fprintf(s.logf, ";; >>> %s\n%s", time.Now().Format("15:04:05.000"), txt)
 	}
 	if _, err := io.WriteString(s.in, txt); err != nil {
 		s.dead = true
@@ -254,6 +265,9 @@ func (s *Solver) readLine() (string, bool) {
 		s.lastErr = "solver died: " + err.Error()
 		return "", false
 	}
+	if s.logf != nil {
+		fmt.Fprintf(s.logf, ";; <<< %s %s", time.Now().Format("15:04:05.000"), line)
+	}
 	return strings.TrimSpace(line), true
 }
 
@@ -263,7 +277,13 @@ func (s *Solver) Check(pc []*Term, extra []*Term, vars []*Term) (Result, map[str
 		return Unknown, nil
 	}
 	t0 := time.Now()
-	defer func() { s.Stats.TimeS += time.Since(t0).Seconds() }()
+	defer func() {
+		dt := time.Since(t0).Seconds()
+		s.Stats.TimeS += dt
+		if dt > 2 && debugSlow {
+			fmt.Fprintf(os.Stderr, "slow incremental query (%s): %.1fs pc=%d\n", s.kind, dt, len(pc))
+		}
+	}()
 	s.Stats.Queries++
 	s.Sync(pc)
 	s.push()
